@@ -456,7 +456,7 @@ def run(chk) -> None:
 MANIFEST_ENTRY = {
     "text": "Static sibling-agreement analysis on the current source: the two reader generations and the two residue models encode the same facts (PDB columns, null markers, author-item preference, grouping key, "
     "connectivity atoms/threshold/strictness, residue order, chi and backbone atom quadruples, coordinate items); any one-sided edit is reported. Agreement of the encoded facts is a necessary condition for the readers "
-    "to agree on every table, which tests on one or two files cannot establish.",
+    "to agree on every table, which tests on one or two files cannot establish. Since round 4 both readers, Structure.residues and connected_residues are also interpreted on one table / file per input class (sa/frame.py, sa/fragment.py) and compared clause by clause.",
     "note": "Trusted: pandas grouping/sorting semantics; equality of parsed values end to end is not decided; torsion sign is C18.",
-    "technique": "static analysis: sibling-table agreement (writer/reader and reader/reader tables extracted from the ast and compared), constant folding",
+    "technique": "static analysis: sibling-table agreement (writer/reader and reader/reader tables extracted from the ast and compared), constant folding + whole-function evaluation of the ast of both reader generations on one input per class",
 }
